@@ -750,4 +750,173 @@ theorem field_hooks_ordered : FieldOrderAllSchedules := by
       have hd := drain_order cfg (sizeNodes r.fields) (startFields cfg [] r.fields).2 r.sched hsz
       exact covered_done cfg _ _ _ n (cFields cfg [] r.fields n hn) hd.1 hd.2
 
+
+/-! ## a path identifies a field -/
+
+def Node.key : Node → String
+  | .mk k _ _ _ => k
+
+mutual
+/-- sibling response keys are distinct in every selection set of the tree (what
+    `collect_fields`, which groups by response key, guarantees) -/
+def wfNode : Node → Bool
+  | .mk _ _ _ c => wfComp c
+def wfComp : Comp → Bool
+  | .leaf => true
+  | .null => true
+  | .obj fs => decide ((keysOf fs).Nodup) && wfNodes fs
+  | .list items => wfItems items
+def wfNodes : List Node → Bool
+  | [] => true
+  | n :: ns => wfNode n && wfNodes ns
+def wfItems : List Comp → Bool
+  | [] => true
+  | c :: cs => wfComp c && wfItems cs
+def keysOf : List Node → List String
+  | [] => []
+  | n :: ns => Node.key n :: keysOf ns
+end
+
+private theorem prefix_same_len {q a b : Path} (ha : a <+: q) (hb : b <+: q) (hl : a.length = b.length) : a = b := by
+  obtain ⟨x, rfl⟩ := ha
+  obtain ⟨y, hy⟩ := hb
+  exact ((List.append_inj hy.symm hl)).1
+
+private theorem ext_ne {p q : Path} {s : Seg} (h : p ++ [s] <+: q) : q ≠ p := by
+  intro e
+  have := h.length_le
+  simp [e] at this
+  omega
+
+private def pathsOf (l : List Resolved) : List Path := l.map (·.path)
+
+mutual
+private theorem uNode : ∀ (path : Path) (n : Node), wfNode n = true →
+    (pathsOf (nodesOfNode path n)).Nodup ∧ ∀ q ∈ pathsOf (nodesOfNode path n), path ++ [.key (Node.key n)] <+: q
+  | path, .mk key d o c, h => by
+    have hc := uComp (path ++ [.key key]) c (by simpa [wfNode] using h)
+    cases o with
+    | returns =>
+      simp only [nodesOfNode, pathsOf, List.map_cons, List.nodup_cons, List.mem_cons, Node.key]
+      refine ⟨⟨fun hm => ?_, hc.1⟩, fun q hq => ?_⟩
+      · obtain ⟨s, hs⟩ := hc.2 _ hm
+        exact ext_ne hs rfl
+      · rcases hq with rfl | hq
+        · exact List.prefix_refl _
+        · obtain ⟨s, hs⟩ := hc.2 q hq
+          exact (List.prefix_append _ _).trans hs
+    | _ => simp [nodesOfNode, pathsOf, Node.key]
+private theorem uComp : ∀ (p : Path) (c : Comp), wfComp c = true →
+    (pathsOf (nodesOfComp p c)).Nodup ∧ ∀ q ∈ pathsOf (nodesOfComp p c), ∃ s, p ++ [s] <+: q
+  | p, .leaf, _ => by simp [nodesOfComp, pathsOf]
+  | p, .null, _ => by simp [nodesOfComp, pathsOf]
+  | p, .obj fs, h => by
+    simp only [wfComp, Bool.and_eq_true, decide_eq_true_eq] at h
+    have := uFields p fs h.2 h.1
+    exact ⟨by simpa [nodesOfComp] using this.1, fun q hq => by
+      obtain ⟨k, _, hk⟩ := this.2 q (by simpa [nodesOfComp] using hq); exact ⟨_, hk⟩⟩
+  | p, .list items, h => by
+    have := uItems p 0 items (by simpa [wfComp] using h)
+    exact ⟨by simpa [nodesOfComp] using this.1, fun q hq => by
+      obtain ⟨j, _, hj⟩ := this.2 q (by simpa [nodesOfComp] using hq); exact ⟨_, hj⟩⟩
+private theorem uFields : ∀ (p : Path) (fs : List Node), wfNodes fs = true → (keysOf fs).Nodup →
+    (pathsOf (nodesOfFields p fs)).Nodup ∧ ∀ q ∈ pathsOf (nodesOfFields p fs), ∃ k ∈ keysOf fs, p ++ [.key k] <+: q
+  | p, [], _, _ => by simp [nodesOfFields, pathsOf]
+  | p, n :: ns, h, hk => by
+    simp only [wfNodes, Bool.and_eq_true] at h
+    simp only [keysOf, List.nodup_cons] at hk
+    have h1 := uNode p n h.1
+    have h2 := uFields p ns h.2 hk.2
+    simp only [nodesOfFields, pathsOf, List.map_append] at h1 h2 ⊢
+    refine ⟨List.nodup_append.2 ⟨h1.1, h2.1, fun a ha b hb e => ?_⟩, fun q hq => ?_⟩
+    · subst e
+      obtain ⟨k, hk', hkp⟩ := h2.2 a hb
+      have := prefix_same_len (h1.2 a ha) hkp (by simp)
+      simp at this
+      exact hk.1 (this ▸ hk')
+    · rcases List.mem_append.1 hq with hq | hq
+      · exact ⟨_, by simp [keysOf], h1.2 q hq⟩
+      · obtain ⟨k, hk', hkp⟩ := h2.2 q hq
+        exact ⟨k, by simp [keysOf, hk'], hkp⟩
+private theorem uItems : ∀ (p : Path) (i : Nat) (cs : List Comp), wfItems cs = true →
+    (pathsOf (nodesOfItems p i cs)).Nodup ∧ ∀ q ∈ pathsOf (nodesOfItems p i cs), ∃ j, i ≤ j ∧ p ++ [.idx j] <+: q
+  | p, i, [], _ => by simp [nodesOfItems, pathsOf]
+  | p, i, c :: cs, h => by
+    simp only [wfItems, Bool.and_eq_true] at h
+    have h1 := uComp (p ++ [.idx i]) c h.1
+    have h2 := uItems p (i + 1) cs h.2
+    simp only [nodesOfItems, pathsOf, List.map_append] at h1 h2 ⊢
+    have hpre : ∀ q ∈ List.map (fun x => x.path) (nodesOfComp (p ++ [.idx i]) c), p ++ [.idx i] <+: q := by
+      intro q hq
+      obtain ⟨s, hs⟩ := h1.2 q hq
+      exact (List.prefix_append _ _).trans hs
+    refine ⟨List.nodup_append.2 ⟨h1.1, h2.1, fun a ha b hb e => ?_⟩, fun q hq => ?_⟩
+    · subst e
+      obtain ⟨j, hj, hjp⟩ := h2.2 a hb
+      have := prefix_same_len (hpre a ha) hjp (by simp)
+      simp at this
+      omega
+    · rcases List.mem_append.1 hq with hq | hq
+      · exact ⟨i, Nat.le_refl _, hpre q hq⟩
+      · obtain ⟨j, hj, hjp⟩ := h2.2 q hq
+        exact ⟨j, by omega, hjp⟩
+end
+
+/-- **a response path identifies a resolved field**: when sibling response keys are distinct
+    (everywhere in the tree), no two resolved fields share a path — so "exactly once per field"
+    in `field_hooks_once` is "exactly once per path". -/
+theorem field_paths_unique (fs : List Node) (hk : (keysOf fs).Nodup) (hw : wfNodes fs = true) :
+    ((nodesOfFields [] fs).map (·.path)).Nodup :=
+  (uFields [] fs hw hk).1
+
+example : (keysOf demoFields).Nodup ∧ wfNodes demoFields = true := by decide
+
+
+private theorem count_of_nodup {α} [BEq α] [LawfulBEq α] : ∀ (l : List α) (a : α), l.Nodup → a ∈ l → l.count a = 1
+  | [], a, _, ha => by simp at ha
+  | x :: l, a, h, ha => by
+    rw [List.nodup_cons] at h
+    by_cases e : x = a
+    · subst e; simp [List.count_cons, List.count_eq_zero.2 h.1]
+    · have hm : a ∈ l := by
+        rcases List.mem_cons.1 ha with h' | h'
+        · exact absurd h'.symm e
+        · exact h'
+      simp [List.count_cons, e, count_of_nodup l a h.2 hm]
+
+private theorem sum_indicator (p : Path) : ∀ (l : List Resolved),
+    (l.map (fun m => if m.path = p then 1 else 0)).sum = List.count p (l.map (·.path))
+  | [] => rfl
+  | m :: l => by
+    by_cases h : m.path = p <;> simp [h, sum_indicator p l, List.count_cons] <;> omega
+
+private theorem count_hook_chunk (cfg : Cfg) (p : Path) (b : Bool) (m : Resolved) :
+    List.count (Ev.hook (.field p b)) (chunk cfg m) = if m.path = p then 1 else 0 := by
+  have hmid : ∀ (mid : List Ev), (∀ e ∈ mid, ∀ h, e ≠ Ev.hook h) →
+      List.count (Ev.hook (.field p b)) ([Ev.hook (.field m.path true)] ++ mid ++ [Ev.hook (.field m.path false)])
+        = if m.path = p then 1 else 0 := by
+    intro mid hm
+    have h0 : List.count (Ev.hook (.field p b)) mid = 0 := List.count_eq_zero.2 (fun hin => hm _ hin _ rfl)
+    by_cases hp : m.path = p <;> cases b <;> simp [List.count_append, List.count_cons, h0, hp]
+  unfold chunk
+  apply hmid
+  intro e he h
+  split at he
+  · simp at he
+  · simp only [List.mem_append, List.mem_map, List.mem_cons, List.not_mem_nil, or_false] at he
+    rcases he with (⟨i, _, rfl⟩ | rfl | rfl) | ⟨i, _, rfl⟩ <;> first | (intro e; cases e) | (split <;> intro e <;> cases e)
+
+/-- **exactly once per path** — when sibling keys are distinct, for every resolved field and
+    whatever the executor, runtime and completion order: the start hook with its path fires
+    exactly once in the whole execution, and so does the end hook with its path. -/
+theorem field_hooks_exactly_once_per_path (cfg : Cfg) (r : Request)
+    (hk : (keysOf r.fields).Nodup) (hw : wfNodes r.fields = true)
+    (n : Resolved) (hn : n ∈ nodesOfFields [] r.fields) (b : Bool) :
+    List.count (Ev.hook (.field n.path b)) (execBody cfg r) = 1 := by
+  rw [(field_hooks_once cfg r).count_eq, List.count_flatMap]
+  have : (List.count (Ev.hook (.field n.path b)) ∘ chunk cfg) = fun m => if m.path = n.path then 1 else 0 := by
+    funext m; exact count_hook_chunk cfg n.path b m
+  rw [this, sum_indicator]
+  exact count_of_nodup _ _ (field_paths_unique r.fields hk hw) (List.mem_map_of_mem hn)
+
 end PyGql.Props.C16
